@@ -272,7 +272,13 @@ impl BuilderArea {
                     _ => "bad-op".into(),
                 }
             }
-            _ => return self.red_step(ws, cx),
+            _ => {
+                let r = self.red_step(ws, cx);
+                if r.is_some() {
+                    self.count_oracle(cx);
+                }
+                return r;
+            }
         };
         Some(ans)
     }
